@@ -4,6 +4,7 @@ import (
 	errorsmod "cosmossdk.io/errors"
 	"cosmossdk.io/math"
 	"fmt"
+	stdmath "math"
 	sdk "github.com/cosmos/cosmos-sdk/types"
 	sdkerrors "github.com/cosmos/cosmos-sdk/types/errors"
 )
@@ -70,7 +71,8 @@ func (msg *MsgUpdateTotalBlocksPerYear) ValidateBasic() error {
 		return errorsmod.Wrapf(sdkerrors.ErrInvalidAddress, "invalid sender address (%s)", err)
 	}
 
-	if msg.TotalBlocksPerYear == 0 {
+	// every consumer converts the value to int64: anything above MaxInt64 would turn negative
+	if msg.TotalBlocksPerYear == 0 || msg.TotalBlocksPerYear > stdmath.MaxInt64 {
 		return fmt.Errorf("invalid total blocks per year")
 	}
 
